@@ -1,8 +1,234 @@
 (* C08 — exported theorems only: each is closed by [exact] and followed by Print Assumptions. *)
-From Coq Require Import List ZArith Bool.
-From Verif Require Import C08.Model C08.Spec C08.Proofs.
+From Coq Require Import List ZArith Bool Permutation.
+From Verif Require Import C08.Model C08.Spec C08.Proofs C08.Proofs_Drift C08.Proofs_Fresh
+  C08.Proofs_Filter C08.Proofs_Main C08.Proofs_Table C08.Proofs_Witness.
+Import ListNotations.
 Open Scope Z_scope.
 
-Theorem c08_sub_inverts_add : forall v c, vsub (vadd v c) c = v.
-Proof. exact vsub_vadd. Qed.
-Print Assumptions c08_sub_inverts_add.
+(* ---- estimates never drift ---- *)
+
+(* after ANY history the sums cached for a node equal the from-scratch computation (reset +
+   addPod for every assigned pod) on its current report and pods *)
+Theorem c08_no_drift : forall cfg ops node n m,
+  alookup node (run cfg ops) = Some n -> n_metric n = Some m ->
+  n_sums n = rebuild cfg m (n_ut n) (n_pods n).
+Proof. exact no_drift. Qed.
+Print Assumptions c08_no_drift.
+
+Theorem c08_delete_inverts_add : forall m ut s pi,
+  sums_sub (sums_add s (contrib m ut pi)) (contrib m ut pi) = s.
+Proof. exact delete_inverts_add. Qed.
+Print Assumptions c08_delete_inverts_add.
+
+(* the from-scratch computation does not depend on the visiting order (Go map iteration) *)
+Theorem c08_rebuild_order_irrelevant : forall cfg m ut pods pods',
+  Permutation pods pods' -> rebuild cfg m ut pods = rebuild cfg m ut pods'.
+Proof. exact rebuild_perm. Qed.
+Print Assumptions c08_rebuild_order_irrelevant.
+
+(* a fresh cache fed the node's current report and pods, in either order, holds the same sums
+   and returns the same estimates — provided the report carries an update time *)
+Theorem c08_fresh_cache_equal : forall cfg ops node n m,
+  node <> 0 ->
+  alookup node (run cfg ops) = Some n -> n_metric n = Some m ->
+  (is_some (m_ut m) = true \/ n_ut n = zero_time) ->
+  forall feed, (feed = feed_metric_first \/ feed = feed_pods_first) ->
+  exists n', alookup node (run cfg (feed node m (n_pods n))) = Some n'
+    /\ n_pods n' = n_pods n /\ n_metric n' = Some m /\ n_sums n' = n_sums n
+    /\ (forall prod t d, get_est n' prod t d = get_est n prod t d).
+Proof. exact fresh_cache_equal. Qed.
+Print Assumptions c08_fresh_cache_equal.
+
+(* the same for the fresh sums as the observation function computes them *)
+Theorem c08_fresh_sums_equal : forall cfg ops node n m,
+  alookup node (run cfg ops) = Some n -> n_metric n = Some m ->
+  (is_some (m_ut m) = true \/ n_ut n = zero_time) ->
+  fresh_sums cfg n = n_sums n.
+Proof. exact fresh_equal. Qed.
+Print Assumptions c08_fresh_sums_equal.
+
+(* REFUTED without that proviso: a report without status.updateTime keeps the previous
+   report's update time, and the cached nodeDelta differs from the fresh cache's *)
+Theorem c08_sticky_update_time_refuted :
+  exists n, alookup 1 (run w_cfg w_ops) = Some n
+    /\ n_metric n = Some w_m2
+    /\ s_nodeDelta (n_sums n) = [0; 0]
+    /\ s_nodeDelta (fresh_sums w_cfg n) = [90; 209715200]
+    /\ fresh_sums w_cfg n <> n_sums n.
+Proof. exact sticky_update_time. Qed.
+Print Assumptions c08_sticky_update_time_refuted.
+
+(* ---- load-aware filtering ---- *)
+
+(* on the cache reached by ANY history, for a non-daemonset pod and a node whose report is
+   fresh as configured: Filter passes iff in every thresholded dimension with non-zero
+   allocatable the (float64-rounded) percentage of  from-scratch estimate of the existing pods
+   + the incoming pod's estimate  is at or below the threshold *)
+Theorem c08_filter_sound : forall cfg ops nd p n m thr isAgg aggT aggD prodPod,
+  alookup (nd_name nd) (run cfg ops) = Some n -> n_metric n = Some m ->
+  p_ds p = false ->
+  select_thresholds (node_profile cfg nd) (is_prod p) = (thr, isAgg, aggT, aggD, prodPod) ->
+  expiry_applies cfg m = false -> is_some (m_info m) = true ->
+  (filter cfg (run cfg ops) nd p = 0 <->
+   (forall i, (i < length thr)%nat -> nth i thr 0 <> 0 -> nth i (eff_alloc nd) 0 <> 0 ->
+      pct_float
+        (nth i (vadd (est_of m (rebuild cfg m (n_ut n) (n_pods n)) prodPod aggT aggD)
+                     (est_vec cfg p)) 0)
+        (nth i (eff_alloc nd) 0) <= nth i thr 0)).
+Proof. exact filter_sound_complete. Qed.
+Print Assumptions c08_filter_sound.
+
+(* the whole-node estimate in the words of the property: last reported usage plus, for every
+   pod whose usage the report does not yet reflect, max(0, estimate - reported usage) *)
+Theorem c08_whole_node_estimate : forall cfg m ut pods u i,
+  node_usage m = Some u -> (i < dims)%nat ->
+  nth i (est_of m (rebuild cfg m ut pods) false 0 0) 0
+  = nth i u 0 + fold_right Z.add 0 (map (fun p => nth i (node_delta_term m ut (snd p)) 0) pods).
+Proof. exact whole_node_estimate. Qed.
+Print Assumptions c08_whole_node_estimate.
+
+Theorem c08_no_usage_estimate : forall cfg m ut pods t d i,
+  t <> 0 -> target_agg m t d = None -> (i < dims)%nat ->
+  nth i (est_of m (rebuild cfg m ut pods) false t d) 0
+  = fold_right Z.add 0 (map (fun p => nth i (node_est_term (snd p)) 0) pods).
+Proof. exact no_usage_estimate. Qed.
+Print Assumptions c08_no_usage_estimate.
+
+(* decision table: daemonset pods and nodes without a report are skipped; a node whose report
+   is expired (or has no update time) while expiry filtering is configured is rejected exactly
+   when EnableScheduleWhenNodeMetricsExpired = false, skipped otherwise *)
+Theorem c08_filter_daemonset : forall cfg nd p st, p_ds p = true -> filter_decide cfg nd p st = 0.
+Proof. exact filter_daemonset. Qed.
+Print Assumptions c08_filter_daemonset.
+
+Theorem c08_filter_no_metric : forall cfg nd p, filter_decide cfg nd p None = 0.
+Proof. exact filter_no_metric. Qed.
+Print Assumptions c08_filter_no_metric.
+
+Theorem c08_expired_behaviour : forall cfg nd p m get thr isAgg aggT aggD prodPod est,
+  p_ds p = false ->
+  select_thresholds (node_profile cfg nd) (is_prod p) = (thr, isAgg, aggT, aggD, prodPod) ->
+  vempty thr = false ->
+  get prodPod aggT aggD = Some est ->
+  expiry_applies cfg m = true ->
+  filter_decide cfg nd p (Some (m, get)) =
+    match c_enable_expired cfg with Some false => 3 | _ => 0 end.
+Proof. exact filter_expired. Qed.
+Print Assumptions c08_expired_behaviour.
+
+Theorem c08_metric_expired_spec : forall m s,
+  metric_expired m s = true <->
+  (m_ut m = None \/ exists t, m_ut m = Some t /\ 0 < s /\ s <= 0 - t).
+Proof. exact metric_expired_spec. Qed.
+Print Assumptions c08_metric_expired_spec.
+
+(* the complete decision of Filter as one table *)
+Theorem c08_filter_decision_table : forall cfg nd p m get thr isAgg aggT aggD prodPod est,
+  p_ds p = false ->
+  select_thresholds (node_profile cfg nd) (is_prod p) = (thr, isAgg, aggT, aggD, prodPod) ->
+  get prodPod aggT aggD = Some est ->
+  filter_decide cfg nd p (Some (m, get)) =
+    if vempty thr then 0
+    else if expiry_applies cfg m then
+      (match c_enable_expired cfg with Some false => 3 | _ => 0 end)
+    else if negb (is_some (m_info m)) then 0
+    else if usage_exceeds thr (vadd est (est_vec cfg p)) (eff_alloc nd)
+    then (if isAgg then 2 else 1) else 0.
+Proof. exact filter_decide_table. Qed.
+Print Assumptions c08_filter_decision_table.
+
+(* threshold profile choice: prod thresholds for prod pods when configured, else the
+   aggregated profile when configured, else the whole-node thresholds *)
+Theorem c08_profile_select_prod : forall pr cls,
+  vempty (ovec (pr_prod pr)) = false -> cls = true ->
+  select_thresholds pr cls = (ovec (pr_prod pr), false, 0, 0, true).
+Proof. exact select_prod. Qed.
+Print Assumptions c08_profile_select_prod.
+
+Theorem c08_profile_select_agg : forall pr cls thr t d,
+  (vempty (ovec (pr_prod pr)) = true \/ cls = false) -> pr_agg pr = Some (thr, t, d) ->
+  select_thresholds pr cls = (thr, true, t, d, false).
+Proof. exact select_agg. Qed.
+Print Assumptions c08_profile_select_agg.
+
+Theorem c08_profile_select_whole : forall pr cls,
+  (vempty (ovec (pr_prod pr)) = true \/ cls = false) -> pr_agg pr = None ->
+  select_thresholds pr cls = (ovec (pr_thr pr), false, 0, 0, false).
+Proof. exact select_whole. Qed.
+Print Assumptions c08_profile_select_whole.
+
+(* ---- which pods are "currently assigned" to a node: effect and frame of the pod events ---- *)
+
+Theorem c08_table_assign : forall cfg now node p c node' uid',
+  pod_info (assign cfg now node p c) node' uid' =
+    if storable node p && (node' =? node) && (uid' =? p_uid p)
+    then Some (mk_pinfo cfg now p) else pod_info c node' uid'.
+Proof. exact pod_info_assign. Qed.
+Print Assumptions c08_table_assign.
+
+Theorem c08_table_unassign : forall node uid c node' uid',
+  pod_info (unassign node uid c) node' uid' =
+    if (node' =? node) && (uid' =? uid) then None else pod_info c node' uid'.
+Proof. exact pod_info_unassign. Qed.
+Print Assumptions c08_table_unassign.
+
+(* no ghost load after spec.nodeName changes *)
+Theorem c08_update_leaves_old_node : forall cfg now old p c,
+  old <> 0 -> old <> p_node p ->
+  pod_info (on_update cfg now old p c) old (p_uid p) = None.
+Proof. exact on_update_leaves_old_node. Qed.
+Print Assumptions c08_update_leaves_old_node.
+
+Theorem c08_update_stores : forall cfg now old p c,
+  storable (p_node p) p = true ->
+  exists pi, pod_info (on_update cfg now old p c) (p_node p) (p_uid p) = Some pi
+    /\ spec_eqb p (pi_pod pi) = true /\ cond_eqb p (pi_pod pi) = true.
+Proof. exact on_update_stores. Qed.
+Print Assumptions c08_update_stores.
+
+Theorem c08_update_drops_terminated : forall cfg now old p c,
+  p_term p = true -> pod_info (on_update cfg now old p c) (p_node p) (p_uid p) = None.
+Proof. exact on_update_drops_terminated. Qed.
+Print Assumptions c08_update_drops_terminated.
+
+Theorem c08_reserve_unreserve_table : forall cfg now node p c node' uid',
+  pod_info c node (p_uid p) = None ->
+  pod_info (unassign node (p_uid p) (assign cfg now node p c)) node' uid' = pod_info c node' uid'.
+Proof. exact reserve_unreserve_table. Qed.
+Print Assumptions c08_reserve_unreserve_table.
+
+(* ---- the decision procedure run on implementation observables ---- *)
+
+(* MAIN: on every history whose reports carry update times the property's decision procedure
+   accepts the model's own observations (what Extract.run_case prints) *)
+Theorem c08_prop_code_model : forall cfg ops,
+  ops_timed ops = true -> prop_code cfg ops (run_obs cfg [] ops) = 0.
+Proof. exact prop_code_model. Qed.
+Print Assumptions c08_prop_code_model.
+
+Theorem c08_prop_code_sound : forall cfg ops obs,
+  prop_code cfg ops obs = 0 -> C08_holds cfg ops obs.
+Proof. exact prop_code_sound. Qed.
+Print Assumptions c08_prop_code_sound.
+
+Theorem c08_holds_model : forall cfg ops,
+  ops_timed ops = true -> C08_holds cfg ops (run_obs cfg [] ops).
+Proof. exact holds_model. Qed.
+Print Assumptions c08_holds_model.
+
+(* ---- non-vacuity ---- *)
+Example c08_ex_timed : ops_timed w_ops2 = true.
+Proof. exact w_ops2_timed. Qed.
+Example c08_ex_filter_results : map fst (run_obs w_cfg [] w_ops2) = [0; 0; 0; 1; 0; 1].
+Proof. exact w_filter_results. Qed.
+Example c08_ex_filter_pass_and_reject :
+  filter w_cfg (run w_cfg [OReserve 0 1 w_pod; OMetric 0 1 w_m3]) w_node_big w_in = 0
+  /\ filter w_cfg (run w_cfg [OReserve 0 1 w_pod; OMetric 0 1 w_m3]) w_node w_in = 1.
+Proof. exact w_filter_pass. Qed.
+Example c08_ex_filter_expired : filter w_cfg (run w_cfg [OMetric 0 1 w_m_old]) w_node_big w_in = 3.
+Proof. exact w_filter_expired. Qed.
+Example c08_ex_untimed_detected : prop_code w_cfg w_ops (run_obs w_cfg [] w_ops) = 1.
+Proof. exact sticky_prop_code. Qed.
+Example c08_ex_float_tie :
+  pct_float 115 200 = 57 /\ round_div (100 * 115) 200 = 58 /\ pct_float 131 200 = 66.
+Proof. exact w_float_tie. Qed.
